@@ -4,8 +4,10 @@
 
 use std::collections::BTreeMap;
 
-fn shapes_sim() -> Vec<String> {
-    use rayon::prelude::*;
+macro_rules! shapes {
+    ($r:ident) => {{
+        use $r::prelude::*;
+
     let v: Vec<i64> = (0..37).collect();
     let caches: Vec<Vec<i64>> = (0..37).map(|i| vec![i; (i % 3) as usize]).collect();
     let mut out = Vec::new();
@@ -47,53 +49,62 @@ fn shapes_sim() -> Vec<String> {
     out.push(format!("{ch:?}"));
     let rv: Vec<i64> = v.par_iter().copied().rev().skip(3).take(5).collect();
     out.push(format!("{rv:?}"));
-    let (j1, j2) = rayon::join(|| 1 + 1, || "x".to_string());
+    let (j1, j2) = $r::join(|| 1 + 1, || "x".to_string());
     out.push(format!("{j1}{j2}"));
-    out
+
+        // adaptors added later
+        let fr: Vec<i64> = v
+            .par_iter()
+            .fold(Vec::new, |mut a: Vec<i64>, x| {
+                a.push(*x);
+                a
+            })
+            .reduce(Vec::new, |mut a, mut b| {
+                a.append(&mut b);
+                a
+            });
+        out.push(format!("{fr:?}"));
+        let tf = v.par_iter().map(|x| *x as u64).try_fold(|| 0u64, |a, x| a.checked_add(x)).try_reduce(|| 0, |a, b| a.checked_add(b));
+        out.push(format!("{tf:?}"));
+        let tf2 = v.par_iter().map(|x| u64::MAX / 3 + *x as u64).try_fold(|| 0u64, |a, x| a.checked_add(x)).try_reduce(|| 0, |a, b| a.checked_add(b));
+        out.push(format!("{tf2:?}"));
+        let tr: Result<i64, String> = v.par_iter().map(|x| Ok::<i64, String>(*x)).try_reduce(|| 0, |a, b| Ok(a + b));
+        out.push(format!("{tr:?}"));
+        let tr1: Result<i64, String> = v.par_iter().map(|x| if *x == 17 { Err("e17".to_string()) } else { Ok(*x) }).try_reduce(|| 0, |a, b| Ok(a + b));
+        out.push(format!("{tr1:?}"));
+        let sb: Vec<i64> = v.par_iter().copied().step_by(4).collect();
+        out.push(format!("{sb:?}"));
+        let ck: Vec<Vec<i64>> = v.par_iter().copied().chunks(5).collect();
+        out.push(format!("{ck:?}"));
+        let up: Vec<i64> = v.par_iter().copied().update(|x| *x += 1).collect();
+        out.push(format!("{up:?}"));
+        let fl: Vec<i64> = vec![vec![1i64, 2], vec![], vec![3]].into_par_iter().flatten().collect();
+        out.push(format!("{fl:?}"));
+        let fli: Vec<i64> = vec![vec![1i64, 2], vec![], vec![3]].into_par_iter().flatten_iter().collect();
+        out.push(format!("{fli:?}"));
+        let mb = v.par_iter().copied().min_by(|a, b| (a % 7).cmp(&(b % 7)).then(a.cmp(b)));
+        let xb = v.par_iter().copied().max_by(|a, b| (a % 7).cmp(&(b % 7)).then(a.cmp(b)));
+        out.push(format!("{mb:?}{xb:?}"));
+        let rw = v.par_iter().copied().reduce_with(|a, b| a.max(b));
+        out.push(format!("{rw:?}"));
+        let fw: i64 = v.par_iter().fold_with(0i64, |a, x| a + *x).sum();
+        out.push(format!("{fw}"));
+        let idx_ok = v.par_iter().all(|_| $r::current_thread_index().is_some());
+        out.push(format!("{idx_ok}"));
+        let mut tfe = Vec::new();
+        v.par_iter().copied().collect_into_vec(&mut tfe);
+        out.push(format!("{tfe:?}"));
+        out
+    }};
+}
+
+fn shapes_sim() -> Vec<String> {
+    shapes!(rayon)
 }
 
 fn shapes_real() -> Vec<String> {
-    use real_rayon::prelude::*;
-    let v: Vec<i64> = (0..37).collect();
-    let caches: Vec<Vec<i64>> = (0..37).map(|i| vec![i; (i % 3) as usize]).collect();
-    let mut out = Vec::new();
-    let (ok, bad): (Vec<Result<(usize, i64, usize), usize>>, Vec<_>) = v
-        .par_iter()
-        .zip(caches.clone())
-        .enumerate()
-        .map(|(i, (x, c))| if x % 5 == 0 { Err(i) } else { Ok((i, *x, c.len())) })
-        .partition(Result::is_ok);
-    out.push(format!("{ok:?}{bad:?}"));
-    let m: BTreeMap<u16, u32> = vec![9u16, 3, 7, 1].into_par_iter().map(|k| (k, k as u32 * 2)).collect();
-    out.push(format!("{m:?}"));
-    let r: Result<Vec<i64>, String> = (0..20i64).into_par_iter().map(|i| Ok(i * i)).collect();
-    out.push(format!("{r:?}"));
-    let f: Vec<i64> = v.par_iter().filter(|x| *x % 3 == 1).map(|x| x + 1).collect();
-    out.push(format!("{f:?}"));
-    let fm: Vec<i64> = v.par_iter().flat_map_iter(|x| vec![*x; (*x % 3) as usize]).collect();
-    out.push(format!("{fm:?}"));
-    let s: i64 = v.par_iter().map(|x| x * 2).sum();
-    out.push(format!("{s}"));
-    let mx = v.par_iter().copied().max();
-    out.push(format!("{mx:?}"));
-    let ff = v.par_iter().find_first(|x| **x > 20).copied();
-    out.push(format!("{ff:?}"));
-    let (a, b): (Vec<i64>, Vec<i64>) = v.par_iter().map(|x| (*x, -*x)).unzip();
-    out.push(format!("{a:?}{b:?}"));
-    let red = v.par_iter().copied().reduce(|| 0, |a, b| a + b);
-    out.push(format!("{red}"));
-    let cnt = v.par_iter().filter(|x| **x % 2 == 0).count();
-    out.push(format!("{cnt}"));
-    let all = v.par_iter().all(|x| *x < 100);
-    let any = v.par_iter().any(|x| *x == 36);
-    out.push(format!("{all}{any}"));
-    let ch: Vec<i64> = v.par_iter().copied().chain(vec![100, 101]).collect();
-    out.push(format!("{ch:?}"));
-    let rv: Vec<i64> = v.par_iter().copied().rev().skip(3).take(5).collect();
-    out.push(format!("{rv:?}"));
-    let (j1, j2) = real_rayon::join(|| 1 + 1, || "x".to_string());
-    out.push(format!("{j1}{j2}"));
-    out
+    // inside a pool, like the code under test when it runs (current_thread_index is Some)
+    real_rayon::ThreadPoolBuilder::new().num_threads(3).build().unwrap().install(|| shapes!(real_rayon))
 }
 
 #[test]
